@@ -930,6 +930,10 @@ class SetIndex(BaseSetIndexSortValues):
             return self._filter_simplification(parent)
 
     def _filter_passthrough_available(self, parent, dependents):
+        if isinstance(self._other, Expr):
+            # the new index is a series of its own: filtering the frame below
+            # would leave it with the rows of the unfiltered frame
+            return False
         if is_filter_pushdown_available(self, parent, dependents):
             from dask_expr._expr import Index
 
